@@ -440,6 +440,10 @@ func (u *Unit) execUnOp(st *State, x *ssa.UnOp) {
 		u.entryClosed(st, l, v, x.Type())
 		st.vals[x] = v
 		if g, ok := x.X.(*ssa.Global); ok {
+			if isErrorSentinel(g) {
+				st.assume(not(eq(v, intLit(0))))
+				u.note("error sentinels (package variables named Err*/Skip*) are non-nil")
+			}
 			if _, isMap := x.Type().Underlying().(*types.Map); isMap {
 				u.assumeTable(st, g, v)
 			}
